@@ -59,7 +59,7 @@ MANIFEST = dict(
               "matrix-kind dataflow; mutation summaries",
 )
 FLOORS = {"C15.1": 8, "C15.2": 10, "C15.3": 10, "C15.4": 3, "C15.5": 1,
-          "C15.6": 4}
+          "C15.6": 4, "C15.8": 12}
 
 RUN = "evo.main_traj.run"
 TP = "evo.core.trajectory.PosePath3D."
@@ -424,6 +424,7 @@ def check(ctx):
            key="C15.5:kind-source", nontrivial=False)
 
     _merge_step(ctx)
+    _step_semantics(ctx)
 
     # --------------------------------------------------------------- C15.6
     proc_last = max(e.idx for n in OPTION_OF for e in step_events[n])
@@ -452,6 +453,17 @@ def check(ctx):
                + ("runs before processing finished" if not ok else
                   f"file stem {fmt(dest)} does not belong to the written "
                   f"trajectory {fmt(traj)}"), key="C15.6:export")
+
+
+def _step_semantics(ctx):
+    """'the exported trajectories equal the inputs processed in the
+    documented order' needs each step to do what its name says: left / right
+    / propagating transformation (C08.5), down-sampling and motion filtering
+    (C11.1, C11.2), time cropping is not an evo_traj step."""
+    from ..core import import_rules
+    n = import_rules(ctx, "c08", ("C08.5",), "C15.8")
+    n += import_rules(ctx, "c11", ("C11.1", "C11.2"), "C15.8")
+    ctx.require(n >= 12, "C15.8: step-semantics instances not found")
 
 
 def _merge_step(ctx):
